@@ -139,6 +139,7 @@ def snippet(v):
         v['case']['src'], v['observed'])
 
 
+FAMILIES = "; plus three fixed families of plain strings: a command with <= 3 groups in every order and 13 tails (also the four fixed-signature commands with 0-2 surplus groups), environments and commands whose names lie far from the name pool (brackets, blanks, digits, punctuation, the library's own internal names, near-misses of built-in names) in 8 + 6 shapes, verbatim-like bodies quoting a near-miss closer"
 SIGNATURES = {}
 
 
@@ -147,8 +148,8 @@ def coverage(tier, total):
     return {
         'rule': 'all strings of <= n symbols over the token-kind alphabets (%s) that satisfy the side conditions and '
                 'parse in strict mode; the 1-edit neighbourhoods and whitespace-before-group variants of the L_wf '
-                'documents of the small layers; order-preserving alignment of input and output.  distinct = distinct '
-                'parseable inputs' % ', '.join('%s n<=%d' % p for p in strings.PLAN[plan]),
+                'documents of the small layers%s; order-preserving alignment of input and output.  distinct = distinct '
+                'parseable inputs' % (', '.join('%s n<=%d' % p for p in strings.PLAN[plan]), FAMILIES),
         'skipped_side_condition': int(total.extra['skipped_side_condition']),
         'strict_failures_not_judged': int(total.extra['strict_failures']),
         'representatives': gram.Names(seed()).describe(),
